@@ -22,8 +22,9 @@ where
 
         if from < stored_len {
             let stored_to = to.min(stored_len);
-            let reader = self.create_reader();
+            // pages before mmap, see collect_stored_range
             let pages = self.pages.read();
+            let reader = self.create_reader();
             Self::read_stored_pages_into(&reader, &pages, from, stored_to, buf);
         }
 
